@@ -431,6 +431,14 @@ def gen_loop(rng, P=None):
         t.trans.append(Tr(1, cond=("and", ("succeeded",), ("ctx_ge", "i", bound)), lang=lang, form=rng.randint(0, 3),
                           pubs=[("z", ("cat", "z", "|exit"))], do=[]))
         m.tags.add("loop_join")
+    if rng.random() < P.get("p_loop_count_changes", 0.3):
+        # retry count taken from a variable that the loop itself lowers between visits
+        first = m.tasks[body[0]]
+        if first.items is None:
+            first.retry = dict(count=("expr", "n"), lang=rng.choice(P["langs"]))
+            if rng.random() < 0.4:
+                first.retry["delay"] = rng.randint(0, 2)
+            m.tasks[body[-1]].trans[0].pubs.append(("n", ("lit", 0)))
     if rng.random() < P.get("p_loop_fork", 0.35):
         # the looping transition also forks to a task outside the loop that the exit transition reaches too
         last = m.tasks[body[-1]]
